@@ -48,17 +48,21 @@ def step(self, op):
         out = 'skipped'
     if self.session is not None and not self.diverged:
         self._learn_auto_pks(strict=False)
-        try: self.walk()
-        except Exception as e:
-            self.c('walker_error.' + type(e).__name__)
-            raise
         d = self.walk_model()
+        if not (d and out.startswith('raised') and kind in MOD_OPS):
+            # (after a failed call that changed the session the atomic monitor owns the report)
+            try: self.walk()
+            except Exception as e:
+                self.c('walker_error.' + type(e).__name__)
+                raise
         if d:
             det = {'op': op, 'outcome': out, 'diffs': [list(map(str, x)) for x in d[:6]]}
             if out.startswith('raised') and kind in MOD_OPS:
                 exc = self.last_exc
                 mech = '%s:%s:model_%s' % (kind, type(exc).__name__, '+'.join(sorted(set(x[0] for x in d))))
-                det.update({'exc': type(exc).__name__, 'msg': str(exc)[:200], 'mechanism': mech})
+                det.update({'exc': type(exc).__name__, 'msg': str(exc)[:200], 'mechanism': mech,
+                            'cascade_cycle': self.last_model.get('cascade_cycle'),
+                            'model_expected_refusal': self.last_model.get('refusal')})
                 self.report('atomic', 'state_changed_after_failed_call', det)
                 self.tainted = mech
                 if self.stop_on_taint:
@@ -166,6 +170,16 @@ def _modify(self, op):
             else: pval = x
         elif kind == 'setmany': pkw = self._pony_kwargs(w.objs[op['oid']].ent, op['kw'])
         elif kind in ('add', 'remove', 'assign'): pitems = [self._arg_obj(i) for i in op['items']]
+    self._note_seed_reassign(op)
+    if refuse is None:
+        # objects the operation deletes (directly or by cascade) that the session only knows as pk-only seeds
+        # or not at all: their many-to-one references are not loaded when pony deletes them
+        for v in set(w.objs) - set(m2.objs):
+            p = self.h.get(v)
+            if p is None or self._is_seed(p):
+                self.seed_deleted.add('%s[%s]' % (w.objs[v].ent, ','.join(map(repr, self._flat_pk(v)))))
+                self.c('seed_deletions')
+    self.last_model ={'cascade_cycle': bool(m2.cascade_revisit), 'refusal': refuse.kind if refuse else None}
     before = self.snapshot() if self.snapshots else None
     mark = self.rec.mark()
 
@@ -184,6 +198,10 @@ def _modify(self, op):
     except Exception as e:
         exc = e
     self.last_exc = exc
+    if kind == 'delete' or (kind in ('remove', 'assign', 'clear', 'set', 'setmany') and refuse is not None and refuse.kind == 'cascade'):
+        self.c('cascade.deletes_judged')
+        if refuse is not None and refuse.kind == 'cascade' and exc is not None: self.c('cascade.refusals_confirmed')
+        if refuse is None and exc is None and len(m2.objs) < len(w.objs) - 1: self.c('cascade.cascading_deletes_applied')
 
     # 4. judge
     if exc is None:
@@ -214,6 +232,13 @@ def _modify(self, op):
         self.c('session_killed_by_error')
         self._reset_after_rollback()
         return 'raised_session_lost'
+    if isinstance(exc, self.core.IsolationError):
+        # a repeatable-read / optimistic-check error invalidates the transaction: the program abandons the session
+        self.c('session_abandoned_after_isolation_error')
+        try: self.orm.rollback()
+        except Exception as e2: self.c('rollback_after_isolation_error_raised.' + type(e2).__name__)
+        self._reset_after_rollback()
+        return 'raised_session_lost'
     if self.snapshots:
         after = self.snapshot()
         diffs = self.compare_snapshots(before, after)
@@ -222,7 +247,8 @@ def _modify(self, op):
             mech = '%s:%s:%s' % (kind, name, '+'.join(sorted(set(d[0] for d in diffs))))
             self.report('atomic', 'state_changed_after_failed_call',
                         {'op': op, 'exc': name, 'msg': str(exc)[:200], 'diffs': [list(map(str, d)) for d in diffs[:6]],
-                         'model_expected_refusal': refuse.kind if refuse else None, 'mechanism': mech})
+                         'model_expected_refusal': refuse.kind if refuse else None, 'mechanism': mech,
+                         'cascade_cycle': bool(m2.cascade_revisit)})
             self.tainted = mech
             if self.stop_on_taint:
                 # the session no longer is what the model thinks it is: end it without committing
@@ -233,10 +259,49 @@ def _modify(self, op):
                 return 'raised_tainted_stop'
     if refuse is None:
         dup = bool(m2.dups())
-        if dup: self.c('conflict.reported_at_call')
+        if dup: self.c('conflict.reported_at_call'); self.c('conflict.judged')
         else: self.c('unexpected_error.%s.%s' % (kind, name))
         return 'raised_conflict' if dup else 'raised_unexpected'
     return 'raised_expected'
+
+
+def _note_seed_reassign(self, op):
+    """Record (oid, attr) of every many-to-one reference this operation (re)assigns on an object whose
+    reference is NOT LOADED in the session cache (a pk-only 'seed').  Used only to recognise the known
+    finding C10-SEED-REASSIGN-OLD-PARENT-LOAD by its mechanism."""
+    w = self.working
+    pairs = []
+    def items_of(v):
+        t, x = dec(v)
+        return [i for i in (x if t == 'set' else [x]) if isinstance(i, int)]
+    try:
+        if op['op'] == 'create':
+            er = self.rules.ents[op['ent']]; kws = op['kw']; owner = None
+        elif op['op'] in ('set', 'setmany'):
+            er = self.rules.ents[w.objs[op['oid']].ent]; owner = op['oid']
+            kws = op['kw'] if op['op'] == 'setmany' else {op['attr']: op['val']}
+        elif op['op'] in ('add', 'remove', 'assign', 'clear'):
+            er = self.rules.ents[w.objs[op['oid']].ent]; owner = op['oid']
+            kws = {op['attr']: {'set': op.get('items', [])}}
+        else: return
+        for n, v in kws.items():
+            a = er.attrs.get(n)
+            if a is None or a.kind == 'scalar': continue
+            r = self.rules.rev(a)
+            if a.kind == 'ref' and r.kind == 'set' and owner is not None: pairs.append((owner, n))
+            elif a.kind == 'set' and r.kind == 'ref':
+                its = set(items_of(v))
+                if owner is not None and op['op'] in ('assign', 'clear', 'set', 'setmany'): its |= set(w.objs[owner].vals[n])
+                pairs.extend((i, r.name) for i in its)
+        for oid, an in pairs:
+            p = self.h.get(oid)
+            if p is None or p._vals_ is None: continue
+            attr = getattr(type(p), an, None)
+            if attr is not None and attr not in p._vals_ and p._status_ != 'created':
+                self.seed_reassigned.add((oid, an))
+                self.c('seed_reassignments')
+    except Exception as e:
+        self.c('note_seed_error.' + type(e).__name__)
 
 
 def _fk_cycle(self):
@@ -265,6 +330,8 @@ def _fk_cycle(self):
 def _reset_after_rollback(self):
     self.unflushed = set()
     self.tainted = None
+    self.seed_reassigned = set()
+    self.seed_deleted = set()
     self.working = self.committed.copy()
     for oid, p in self.h.items(): self.stale[oid] = p
     self.h = {}; self.rev = {}
@@ -305,7 +372,7 @@ def _tx(self, op):
         self.last_exc = exc
         if exc is None:
             if dups:
-                self.report('conflict', 'duplicate_key_flushed_without_error', {'op': kind, 'dups': repr(dups[:2])})
+                self.c('conflict.judged'); self.report('conflict', 'duplicate_key_flushed_without_error', {'op': kind, 'dups': repr(dups[:2])})
                 self.diverged = 'duplicates flushed'
                 return 'diverged'
             self._learn_auto_pks()
@@ -327,7 +394,7 @@ def _tx(self, op):
         if name == 'UnresolvableCyclicDependency':
             if cycle: self.c('fkorder.cycle_refused')
             else: self.report('fkorder', 'cyclic_dependency_error_without_cycle', {'op': kind, 'msg': msg[:200]})
-        if dups: self.c('conflict.reported_at_flush')
+        if dups: self.c('conflict.reported_at_flush'); self.c('conflict.judged')
         else: self.c('unexpected_error.%s.%s' % (kind, name))
         # the session's transaction is over: make sure it is, then nothing of it may be visible
         try:
@@ -546,7 +613,9 @@ def install():
     Engine._arg_obj = _arg_obj
     Engine._reset_after_rollback = _reset_after_rollback
     Engine._fk_cycle = _fk_cycle
+    Engine._note_seed_reassign = _note_seed_reassign
     Engine.unflushed = set()
+    Engine.last_model = {}
     Engine._learn_auto_pks = _learn_auto_pks
     Engine._judge_read = _judge_read
     Engine._obs = _obs
